@@ -71,7 +71,8 @@ def main(names):
                 rows.append((name, check, 'MUTANT DID NOT APPLY (%d matches)' % s.count(old)))
                 continue
             open(p, 'w').write(s.replace(old, new))
-            rc, out = sh('cd /verif && timeout 1200 bin/check %s --tier quick' % check, {'VERIF_REPO': WT})
+            # only the property's own tie (the ties of its hypotheses - other properties' checks - are not what these mutants are about)
+            rc, out = sh('cd /verif && timeout 1200 bin/check %s --tier quick' % check, {'VERIF_REPO': WT, 'VERIF_NO_HYPOTHESES': '1'})
             viol = [l for l in out.splitlines() if l.startswith('VIOLATION')]
             whats = {}
             first = None
